@@ -1,6 +1,8 @@
 import HpackVerif.Props.SrcDec
 import HpackVerif.Props.C04
 import HpackVerif.Props.C07
+import HpackVerif.Props.C02
+import HpackVerif.Props.C08
 /-! # Property theorems restated on the translated source
 
 Each statement here composes a *tie* theorem (translated source = model, `Props.Src*`) with a *property* theorem (the model
@@ -54,6 +56,55 @@ theorem decoded_list_bounded (st : DecState) (hinv : Inv st.table) (hlim : st.li
       simp only [List.map_map, Function.comp_def, hproj, hsize, entrySize]
     show (((out.map fun h => 32 + h.1.length + h.2.1.length).sum : Nat) : Int) ≤ (st.listLimit : Int)
     rw [hsz]; exact_mod_cast hb
+  | err e => simp only [AgreeRun] at ha; rw [ha] at hret; cases hret
+  | esc x =>
+    simp only [AgreeRun] at ha
+    rw [hret] at ha; simp [dropS] at ha
+
+/-- **C02 on the source**: for every reachable decoder state and every well-formed block (any sequence of representations,
+any per-string Huffman choice and integer padding within the implementation's cap) whose RFC 7541 meaning is a header
+list, the translated `Decoder.decode(block, raw=True)` returns exactly that list — names, values and the never-indexed
+class — and the decoder it leaves stands for the context RFC 7541 prescribes after the block -/
+theorem rfc_meaning (st : DecState) (h : Props.DecReach st) (hlim : st.listLimit < 10 ^ 4300) (rcs : List (RFC.Rep × RFC.Choice))
+    (hok : ∀ rc ∈ rcs, RFC.RepOK Gen.intCap rc.1 rc.2) (fs : List RFC.Field)
+    (hi : (RFC.interp (RFC.abs st) (rcs.map (·.1))).1 = .ok fs) :
+    ∃ f0, ∀ fuel, fuel ≥ f0 → ∃ st' out,
+      Src.Decoder.decode fuel (absD st) (RFC.blockOctets rcs) true = .ok (absD st', out) ∧
+      out = fs.map (fun f => (f.name, f.value, f.never)) ∧
+      RFC.abs st' = (RFC.interp (RFC.abs st) (rcs.map (·.1))).2 := by
+  obtain ⟨out, ho, hfs, hst⟩ := Props.C02.meaning_raw st h rcs hok fs hi
+  obtain ⟨f0, hf⟩ := Props.SrcDec.decode_is_model st (RFC.blockOctets rcs) true (Props.decReach_inv h) hlim
+  refine ⟨f0, fun fuel hfu => ?_⟩
+  have ha := hf fuel hfu
+  generalize hm : Impl.Cur.decode st (RFC.blockOctets rcs) true = m at ha ho hst
+  obtain ⟨r, st'⟩ := m
+  simp only at ho
+  subst ho
+  simp only [AgreeRun] at ha
+  refine ⟨st', _, ha, ?_, hst⟩
+  rw [← hfs]
+  simp [List.map_map, Function.comp_def, hproj, RFC.absH]
+
+/-- **C08 on the source**: whenever the translated `Decoder.decode` returns, the table's maximum in the decoder it leaves
+is at most the `max_allowed_table_size` the application configured -/
+theorem table_size_within_allowed (st : DecState) (hinv : Inv st.table) (hlim : st.listLimit < 10 ^ 4300) (data : Bytes) (raw : Bool) :
+    ∃ f0, ∀ fuel, fuel ≥ f0 → ∀ dec' out, Src.Decoder.decode fuel (absD st) data raw = .ok (dec', out) →
+      dec'.f_header_table.f_maxsize ≤ (absD st).f_max_allowed_table_size := by
+  obtain ⟨f0, h⟩ := Props.SrcDec.decode_is_model st data raw hinv hlim
+  refine ⟨f0, fun fuel hf dec' out hret => ?_⟩
+  have ha := h fuel hf
+  have hb := Props.C08.after_ok_block st data raw
+  generalize hm : Impl.Cur.decode st data raw = m at ha hb
+  obtain ⟨r, st'⟩ := m
+  cases r with
+  | ok hs =>
+    simp only [AgreeRun] at ha
+    rw [ha] at hret
+    simp only [Except.ok.injEq, Prod.mk.injEq] at hret
+    have := hb hs rfl
+    rw [← hret.1]
+    show ((st'.table.maxsize : Nat) : Int) ≤ ((st.allowed : Nat) : Int)
+    exact_mod_cast this
   | err e => simp only [AgreeRun] at ha; rw [ha] at hret; cases hret
   | esc x =>
     simp only [AgreeRun] at ha
